@@ -4,6 +4,7 @@ import GitSizer.Driver.Parsers
 import GitSizer.Driver.Config
 import GitSizer.Driver.Refs
 import GitSizer.Driver.Graph
+import GitSizer.Driver.Output
 /-! `gsmodel`: reads case lines (engine TAB id TAB input… TAB => TAB observed…) on stdin and
     prints one verdict line per case: id TAB verdict… -/
 open GitSizer.Driver
@@ -17,6 +18,7 @@ def engineOf (name : String) : Option Engine :=
   | "confige2e" => some configE2EEngine
   | "refs" => some refsEngine
   | "graph" => some graphEngine
+  | "output" => some outputEngine
   | _ => none
 
 def splitCase (fields : List String) : List String × List String :=
